@@ -8,4 +8,11 @@ PROPS = {
         "trusted_base": ["merge-key values that are floats or containers are outside the modelled domain (fmt %v text)"],
         "assumptions": ["json.Unmarshal(json.Marshal v) = v on well-formed values (JText stands for the serialised last-applied record)"],
     },
+    "C02": {
+        "pkg": "./pkg/controller/composite/",
+        "run": "^TestVerif_Composite$",
+        "env": {"VERIF_PROP": "C02"},
+        "n": {"quick": 150, "thorough": 2000},
+        "rule": "generated composite scenarios (parent, hook program, population of owned/orphaned/foreign/look-alike objects, 1-3 syncs); non-trivial = at least one accepted write; distinct = different projected trace signature",
+    },
 }
